@@ -70,4 +70,17 @@ CHECKS = {
         level_note="Trusts the modifier models in harness/c15 (written from the modifiers' documentation). Opcodes other than 1/2 have no 'opposite' and are exercised for crash-freedom only; offers with a nil YourIPAddr are unjudged for option 50.",
         assumptions=["an option present with a non-nil empty slice is normalised to the decoder's form (nil) before the call"],
     ),
+    "C02": dict(
+        title="DHCPv6 encode->decode preserves messages, relay chains and every option type",
+        stages=[dict(name="rt", shards=S16, timeout={"quick": 900, "thorough": 3600})],
+        rule="generated values: Message (any non-relay type octet) or relay chain of depth 0..8, 0..20 options per level from every typed option code (set discovered at run time with "
+             "ParseOption(code,nil) over all 65536 codes) plus unknown codes; nested IA_NA/IA_TA/IA_PD with addresses, prefixes, status codes; vendor options; NTP sub-options; relay-msg; embedded DHCPv4; "
+             "4RD rules; addresses from classes {::, v4-mapped, link-local, multicast, v4-compatible, random}; all DUID kinds. Shape = sorted set of kind paths (e.g. relay/relaymsg/msg/iana/iaaddr/status); "
+             "non-trivial iff >= 2 distinct typed option kinds or nesting depth >= 3.",
+        technique="generated round trips through the real encoder/decoder compared on a neutral value tree with the generator's record (oracle A) and with an independent RFC 8415 reference decoder applied to the emitted bytes (oracle B)",
+        level_text="Every generated value is encoded and decoded by the real library; the decoded value (projected by reflection onto a neutral tree) must equal the tree the generator built, and the emitted "
+                   "bytes must be read by an independently written decoder as exactly that tree, so symmetric encode/decode errors are visible. Evidence lists per-code hit counts; a typed code without generator would be listed as reduced_oracle.",
+        level_note="Trusts harness/ref6 + reflabel + ref4 (reference decoders), harness/proj (reflection projection) and the generator's record.",
+        assumptions=["field domains as in the property quantifier (whole seconds < 2^32, elapsed time in 10 ms units, prefix lengths in range, valid names <= 255 octets, unique ORO codes, non-empty class lists, 16-byte addresses)"],
+    ),
 }
